@@ -1195,8 +1195,8 @@ func main() {
 	defer os.RemoveAll(base)
 
 	id := corpus(cf, m, base, 0)
-	nChunk := f.Count(80, 2000)
-	nDB := f.Count(18, 400)
+	nChunk := f.Count(80, 1500)
+	nDB := f.Count(18, 280)
 	for i := 0; i < nChunk; i++ {
 		r := gen.Fork(f.Seed, id)
 		fl, mode, ops, ivs := genChunkCase(r, m)
